@@ -40,7 +40,8 @@ import (
 const serviceMaxDepth = 9
 
 type service struct {
-	salt uint64
+	salt     uint64
+	listMode int // state of every list wrapper (listByHash = decided by hash), set between Loads only
 	// gqlType: "<proto message name>.<proto field name>" -> GraphQL type of the
 	// field that is stored there (nil / missing = unknown = treat as non-null).
 	gqlType map[string]*gast.Type
@@ -320,7 +321,7 @@ func (s *service) fillField(msg protoref.Message, msgName string, fd protoref.Fi
 				s.unknown.Store(msgName+"."+string(fd.Name()), true)
 			}
 			sub := msg.NewField(fd).Message()
-			if s.fillListWrapper(sub, h, depth, gt) {
+			if s.fillListWrapper(sub, h, depth, gt, 0) {
 				msg.Set(fd, protoref.ValueOfMessage(sub))
 			}
 		default:
@@ -350,18 +351,50 @@ func (s *service) fillField(msg protoref.Message, msgName string, fd protoref.Fi
 	}
 }
 
+// The states of the list wrappers (message ListOfX { message List { repeated X
+// items = 1; } List list = 1; }) that the service can be told to produce for
+// EVERY nullable / nested list of its data at once (listMode); 0 = by hash.
+const (
+	listByHash          = iota
+	listNullAbsent      // every nullable (outer) list is null, encoded by leaving the wrapper field out
+	listNullNoInnerList // every nullable (outer) list is null, encoded by a wrapper that is present but carries no `list`
+	listEmpty           // every nullable (outer) list is an empty list (wrapper with an empty `list`)
+	listInnerNull       // every wrapped list has 2 elements; every nullable INNER list is null (element wrapper without `list`)
+	listInnerEmpty      // every wrapped list has 2 elements; every nullable INNER list is empty
+)
+
+var listModeNames = []string{"by hash", "nullable lists null (wrapper absent)", "nullable lists null (wrapper without list)", "nullable lists empty", "inner lists null", "inner lists empty"}
+
 // fillListWrapper fills a ListOfX wrapper for the GraphQL list type gt (nil =
-// unknown: every level non-null). It reports false when the list is null (the
-// wrapper stays unset).
-func (s *service) fillListWrapper(w protoref.Message, h uint64, depth int, gt *gast.Type) bool {
-	if gt != nil && gt.Elem != nil && !gt.NonNull && h64(h, "present")%4 == 0 {
+// unknown: every level non-null). level 0 is the wrapper stored in the field,
+// level 1 an element wrapper of a nested list. It reports whether the wrapper
+// is to be stored at all (level 0; an element wrapper always is); a wrapper
+// that is stored without its `list` member is a null list as well.
+func (s *service) fillListWrapper(w protoref.Message, h uint64, depth int, gt *gast.Type, level int) bool {
+	canBeNull := gt != nil && gt.Elem != nil && !gt.NonNull
+	n := int(h64(h, "len") % 3)
+	mode := s.listMode
+	switch {
+	case level == 0 && canBeNull && mode == listNullAbsent:
+		return false
+	case level == 0 && canBeNull && mode == listNullNoInnerList:
+		return true // stored, but without `list`
+	case level == 0 && canBeNull && mode == listEmpty:
+		n = 0
+	case level == 0 && (mode == listInnerNull || mode == listInnerEmpty):
+		n = 2
+	case level > 0 && canBeNull && mode == listInnerNull:
+		return true // element wrapper without `list`
+	case level > 0 && canBeNull && mode == listInnerEmpty:
+		n = 0
+	case canBeNull && h64(h, "present")%4 == 0:
+		// by hash: the outer null list is encoded by leaving the field out, the inner one by a wrapper without `list`
 		return false
 	}
 	listFD := w.Descriptor().Fields().ByNumber(1)
 	inner := w.NewField(listFD).Message()
 	itemsFD := inner.Descriptor().Fields().ByNumber(1)
 	items := inner.Mutable(itemsFD).List()
-	n := int(h64(h, "len") % 3)
 	var et *gast.Type
 	if gt != nil {
 		et = gt.Elem
@@ -372,7 +405,7 @@ func (s *service) fillListWrapper(w protoref.Message, h uint64, depth int, gt *g
 		case itemsFD.Kind() == protoref.MessageKind && isListWrapper(itemsFD.Message()):
 			el := items.NewElement()
 			// a null inner list is an element whose `list` member is unset
-			s.fillListWrapper(el.Message(), eh, depth, et)
+			s.fillListWrapper(el.Message(), eh, depth, et, level+1)
 			items.Append(el)
 		case itemsFD.Kind() == protoref.MessageKind:
 			el := items.NewElement()
